@@ -20,6 +20,7 @@ fi
 export IMB_REPO="$S/repo" IMB_CACHE="$S/cache" VERIF_OUT="$S/out"
 # build_sim.sh keeps its own cache dir; point everything at the scratch cache but reuse sim objects
 LIBDIR=$(IMB_CACHE="$S/cache" "$V/tools/build_cache.sh") || { echo "MUTANT: build failed (does not compile)"; exit 3; }
+export IMB_LIBDIR_RESOLVED="$LIBDIR"
 BIN=$(IMB_LIBDIR="$LIBDIR" "$V/tools/build_sim.sh") || { echo "MUTANT: sim link failed"; exit 3; }
 for id in "${ids[@]}"; do
   out=$("$BIN" check "$id" "${extra[@]}" 2>&1); rc=$?
